@@ -25,11 +25,21 @@ def wrappers():
     out = ['#include <cstdint>', '#include <xtl/xcompare.hpp>', 'static_assert(std::is_signed<char>::value, "char signedness");']
     for (a, ta, sa, wa) in TYPES:
         for (b, tb, sb, wb) in TYPES:
-            out.append('static_assert(xtl::cmp_less(static_cast<%s>(1), static_cast<%s>(2)) && !xtl::cmp_equal(static_cast<%s>(1), static_cast<%s>(2)), "constexpr");' % (ta, tb, ta, tb))
             body = ' | '.join('(static_cast<uint32_t>(xtl::%s(x, y)) << %d)' % (f, i) for i, f in enumerate(FN))
             out.append('extern "C" __attribute__((noinline)) uint32_t w_cmp_%s_%s(uint64_t a, uint64_t b) { %s x = static_cast<%s>(a); %s y = static_cast<%s>(b); return %s; }'
                        % (a, b, ta, ta, tb, tb, body))
     return '\n'.join(out) + '\n'
+
+
+def probes(tier):
+    """'usable in constant expressions': every function for every type pair inside a static_assert (the compiler's verdict)"""
+    out = ['#include <cstdint>', '#include <xtl/xcompare.hpp>']
+    for (a, ta, sa, wa) in TYPES:
+        for (b, tb, sb, wb) in TYPES:
+            out.append('static_assert(xtl::cmp_less(static_cast<%s>(1), static_cast<%s>(2)) && !xtl::cmp_equal(static_cast<%s>(1), static_cast<%s>(2)) && xtl::cmp_not_equal(static_cast<%s>(1), static_cast<%s>(2)) '
+                       '&& xtl::cmp_less_equal(static_cast<%s>(1), static_cast<%s>(2)) && !xtl::cmp_greater(static_cast<%s>(1), static_cast<%s>(2)) && !xtl::cmp_greater_equal(static_cast<%s>(1), static_cast<%s>(2)), "constexpr");'
+                       % ((ta, tb) * 6))
+    return [('constexpr', '\n'.join(out) + '\n', 'cmp_* are usable in constant expressions for every type pair')]
 
 
 def harness_text():
